@@ -22,15 +22,20 @@ Atts(t) == [j \in 1..Len(t.atts) |->
               IF t.mode = "sym" THEN (IF t.atts[j].complete THEN Observe(t.atts[j].raw)
                                       ELSE [Observe(t.atts[j].raw) EXCEPT !.complete = FALSE])
               ELSE t.atts[j]]
-Which(t, atts) == IF SameRun({}, t.sc, atts, t.outcome) THEN "design"
-                  ELSE IF SameRun({"D3"}, t.sc, atts, t.outcome) THEN "D3"
-                  ELSE IF SameRun({"D4"}, t.sc, atts, t.outcome) THEN "D4"
-                  ELSE IF SameRun({"D3", "D4"}, t.sc, atts, t.outcome) THEN "D3+D4"
-                  ELSE "neither"
-DOf(w) == CASE w = "design" -> {} [] w = "D3" -> {"D3"} [] w = "D4" -> {"D4"} [] w = "D3+D4" -> {"D3", "D4"} [] OTHER -> {}
-\* "sym" mode: are the recorded bytes the canonical serialisation of the matching model run?
-Exact(t, w) == IF t.mode # "sym" \/ w = "neither" THEN "n/a"
-               ELSE IF SameBytes(DOf(w), t.sc, [j \in 1..Len(t.atts) |-> t.atts[j].raw]) THEN "exact" ELSE "inexact"
+\* Which deviation set's model run is the recorded run, and (mode "sym") are the recorded bytes that run's bytes?
+\* (each model run is computed at most once: LET definitions are evaluated lazily and cached)
+Which(t, atts) ==
+    LET raws == [j \in 1..Len(t.atts) |-> t.atts[j].raw]
+        p0 == Predict({}, t.sc)
+        p3 == Predict({"D3"}, t.sc)
+        p4 == Predict({"D4"}, t.sc)
+        p34 == Predict({"D3", "D4"}, t.sc)
+        Ex(p) == IF t.mode # "sym" THEN "n/a" ELSE IF BytesMatch(p, raws) THEN "exact" ELSE "inexact"
+    IN IF Matches(p0, atts, t.outcome) THEN [w |-> "design", e |-> Ex(p0)]
+       ELSE IF Matches(p3, atts, t.outcome) THEN [w |-> "D3", e |-> Ex(p3)]
+       ELSE IF Matches(p4, atts, t.outcome) THEN [w |-> "D4", e |-> Ex(p4)]
+       ELSE IF Matches(p34, atts, t.outcome) THEN [w |-> "D3+D4", e |-> Ex(p34)]
+       ELSE [w |-> "neither", e |-> "n/a"]
 Class(t, j) == IF j = 0 THEN "-"
                ELSE (IF InClassD3(t.sc, j) THEN "D3" ELSE "") \o (IF InClassD4(t.sc, j) THEN "D4" ELSE "")
 
@@ -40,7 +45,7 @@ TNext == /\ tid <= Len(Traces)
                 v == Verdict(t.sc, atts)
                 w == Which(t, atts) IN
             PrintT("VERDICT|" \o ToString(tid) \o "|" \o ToString(v.at) \o "|" \o v.clause \o "|" \o Class(t, v.at)
-                   \o "|" \o w \o "|" \o Exact(t, w))
+                   \o "|" \o w.w \o "|" \o w.e)
          /\ tid' = tid + 1
 TSpec == TInit /\ [][TNext]_tid
 =============================================================================
